@@ -141,7 +141,9 @@ class Operand(ABC):
         if not self.is_unknown():
             return self
 
-        if self.value.is_numeric() and (self.value.is_direct() or old_value.is_explicit_direct()):
+        is_forced_extended = self.operand_string.startswith(">")
+        if self.value.is_numeric() and not is_forced_extended and \
+                (self.value.is_direct() or old_value.is_explicit_direct()):
             return DirectOperand(self.operand_string, self.instruction, DirectNumericValue(self.value.int))
 
         return ExtendedOperand(self.operand_string, self.instruction, value=self.value)
